@@ -555,4 +555,35 @@ theorem send_eq_spec (hs : List (String × String)) (anyCtx : Bool) (m : MethodS
       refine ⟨_, rfl, rfl, hpath, ?_, hb', rfl, hctx anyCtx⟩
       simp [specQuery, hv, hdict]
 
+/-! ### the region predicate -/
+
+theorem noBrace_of_contains (s : List Char) (h : s.contains '{' = false) : noBrace s := by
+  intro c hc e
+  subst e
+  have : s.contains '{' = true := by simpa using hc
+  rw [h] at this; cases this
+
+theorem region_wf (i : IfaceSpec) (calls : List Call) (h : region i calls = "WF") :
+    structOk i = true ∧ F_mixedCtx i = false ∧ F_bodyNoStruct i = false ∧ F_ptrDict i = false ∧
+    F_twoDicts i = false ∧ F_qualScalar i = false ∧ F_nilStructDeref i calls = false ∧
+    F_pathArgBrace i calls = false := by
+  unfold region at h
+  cases h0 : structOk i <;> simp only [h0, Bool.not_false, Bool.not_true, Bool.false_eq_true, ↓reduceIte] at h
+  · exact absurd h (by decide)
+  cases h1 : F_mixedCtx i <;> simp only [h1, Bool.false_eq_true, ↓reduceIte] at h
+  case true => exact absurd h (by decide)
+  cases h2 : F_bodyNoStruct i <;> simp only [h2, Bool.false_eq_true, ↓reduceIte] at h
+  case true => exact absurd h (by decide)
+  cases h3 : F_ptrDict i <;> simp only [h3, Bool.false_eq_true, ↓reduceIte] at h
+  case true => exact absurd h (by decide)
+  cases h4 : F_twoDicts i <;> simp only [h4, Bool.false_eq_true, ↓reduceIte] at h
+  case true => exact absurd h (by decide)
+  cases h5 : F_qualScalar i <;> simp only [h5, Bool.false_eq_true, ↓reduceIte] at h
+  case true => exact absurd h (by decide)
+  cases h6 : F_nilStructDeref i calls <;> simp only [h6, Bool.false_eq_true, ↓reduceIte] at h
+  case true => exact absurd h (by decide)
+  cases h7 : F_pathArgBrace i calls <;> simp only [h7, Bool.false_eq_true, ↓reduceIte] at h
+  case true => exact absurd h (by decide)
+  exact ⟨rfl, rfl, rfl, rfl, rfl, rfl, rfl, rfl⟩
+
 end ShootVerif.Rest
